@@ -44,7 +44,7 @@ get_address = Fn(FI, "get_address", impl="<'iter, 'ast, 'decls> ResolverContext<
                  key="ResolverContext::get_address", props=["C01", "C06", "C03", "C19"],
                  requires=CTX_REQ,
                  ensures=LOUD + [
-                     C("addr_formula", "res is Ok && res->Ok_0 is Some ==> res->Ok_0->0.val() == address_of(bank_of(defs, self.bank_ref), self.bank_data.cur_position as int)", ["C01", "C06"]),
+                     C("addr_formula", "res is Ok && res->Ok_0 is Some ==> res->Ok_0->0.val() == address_of(bank_of(defs, self.bank_ref), self.bank_data.cur_position as int)", ["C01", "C06", "C12"]),
                      C("misaligned_is_none", "bank_of(defs, self.bank_ref).addr_unit > 0 && !can_guess && self.bank_data.cur_position % bank_of(defs, self.bank_ref).addr_unit != 0 ==> res == Ok::<Option<util::BigInt>, ()>(None)", ["C06"]),
                      C("aligned_is_some", "res is Ok && res->Ok_0 is None ==> !can_guess && self.bank_data.cur_position % bank_of(defs, self.bank_ref).addr_unit != 0", ["C06"]),
                  ])
